@@ -182,8 +182,16 @@ def generate(tier, seed, casedir, variant):
                 samples.append(dict(jsonable(cfg), returned=obs))
             cid += 1
     write_cases(casedir, "C05", "R_C05", variant, cases, chunk=100)
+    # the separable-network branches of the initial-condition and normalisation terms against the pointwise ones: oracle only
+    import c11
+    nsep = 3 if tier == "quick" else 9
+    try:
+        viol += [v for v in c11.impl_vs_impl(rng, nsep, terms_only=True) if "initial-condition" in v["detail"] or "normalisation" in v["detail"] or "norm_loss" in v["detail"]]
+    except Exception as ex:
+        viol.append({"detail": f"separable / pointwise term comparison raised {type(ex).__name__}: {str(ex)[:300]}", "case": {"what": "impl_vs_impl"}})
+    dist["separable_vs_pointwise_rounds"] = nsep
     return dict(meta=meta, oracle_violations=viol, evaluations=len(cases), distinct_nontrivial=len(nontrivial), samples=samples, distribution=dist,
-                rule="per (term, loss kind): random polynomial networks with 1..3 outputs whose output adds the equation parameter a, dyadic points, scalar and per-component weights, solution / observation slices (the stationary normalisation term too is taken over the solution slice), observed parameter rows present or not, initial-condition functions returning an array or a scalar, half of the initial-condition / normalisation cases next to an observation part whose observed parameter rows must not reach them, every loss evaluated twice on the same objects; non-trivial = the term is non-zero",
+                rule="per (term, loss kind): random polynomial networks with 1..3 outputs whose output adds the equation parameter a, dyadic points, scalar and per-component weights, solution / observation slices (the stationary normalisation term too is taken over the solution slice), observed parameter rows present or not, initial-condition functions returning an array or a scalar, half of the initial-condition / normalisation cases next to an observation part whose observed parameter rows must not reach them, every loss evaluated twice on the same objects; plus separable-network against pointwise initial-condition / normalisation terms (oracle only); non-trivial = the term is non-zero",
                 oracle_checks=0)
 
 
